@@ -3,6 +3,7 @@ import Deb822Verif.Driver.Deb
 import Deb822Verif.Driver.Rel
 import Deb822Verif.Driver.Cpr
 import Deb822Verif.Driver.Total
+import Deb822Verif.Driver.Codec
 open Deb822Verif
 
 def dispatch (op : String) (args : List String) : String :=
@@ -10,6 +11,7 @@ def dispatch (op : String) (args : List String) : String :=
     <|> (Driver.Rel.handle op args)
     <|> (Driver.Cpr.handle op args)
     <|> (Driver.Total.handle op args)
+    <|> (Driver.Codec.handle op args)
   match r with
   | some s => s
   | none => "bad-op"
